@@ -1,7 +1,8 @@
 """Which adapters decide which property."""
 from .cvrp import CVRP
+from .tsp import TSP
 
-ALL = [CVRP()]
+ALL = [CVRP(), TSP()]
 for a in ALL:
     if not hasattr(a, "tag"):
         a.tag = a.name
